@@ -45,6 +45,10 @@ CHECKS = {
    text="Differential testing against an independent implementation of IEEE 1588-2019 Figures 33/34/35 and Tables 30/33 with statime's documented deviations: generated multi-port cases (prior states via preludes, up to 4 candidates per port, same grandmaster via different paths, own-instance Announces, master-only/slave-only/faulty exclusions, permuted port and Announce order) plus an exhaustive single-candidate lattice; additional relations: maximality of the selected parent and order independence (every case is run a second time with reversed orders).",
    note="Genuine ties are skipped; timePropertiesDS after M1/M2 is not asserted; candidates are arranged so that IEEE's and statime's qualification bookkeeping agree (that bookkeeping is C06's subject).",
    technique="differential property-based testing against a reference BMCA + exhaustive small lattice + metamorphic order-independence"),
+ "C06": dict(level="exploration", design="DESIGN.md §4 C06",
+   text="Time-stepped model-based testing with live host timers: generated per-interval arrival patterns (absent/once/duplicated/reordered/stale, isolated single Announces, ids across 65535->0, stepsRemoved >= 255, own clock identity, up to 10 masters) and BMCA phases; after every BMCA an independent time-based reception record decides the necessary conditions (>= 2 receptions within 4 intervals + one BMCA period, stepsRemoved < 255, foreign identity; Passive must be explainable), the expiry bound (silent for 6 intervals + 1 BMCA period => not parent) and, for clean patterns with <= 8 masters, that the steadily announcing best master is the parent.",
+   note="The sufficient clause is only asserted when no better-or-equal competitor was heard within 7 intervals + 2 BMCA periods (falling back to being master in between is allowed by the statement; see DESIGN.md section 8).",
+   technique="model-based property testing over arrival schedules with a time-based reference record"),
 }
 NA_REASON = "check not built yet in this round (design in DESIGN.md §4); will be claimed once its check exists"
 
